@@ -4,3 +4,4 @@ import RSVerif.Properties.C11
 #print axioms RS.decode_perm
 #print axioms RS.given_not_restored'
 #print axioms RS.all_given_empty'
+#print axioms RS.surplus_indep
